@@ -411,6 +411,36 @@ Proof.
   destruct (Z.leb_spec len i); split; intros; auto; lia.
 Qed.
 
+(* ------------------------------------------------------------------ swap / assignment *)
+Lemma c14_view_swap_ok : forall x y idx,
+  c14_view_offset (fst (c14_view_swap x y)) idx = c14_view_offset y idx /\
+  c14_view_offset (snd (c14_view_swap x y)) idx = c14_view_offset x idx /\
+  snd (fst (c14_view_swap x y)) = snd y /\ snd (snd (c14_view_swap x y)) = snd x.
+Proof. intros. repeat split. Qed.
+
+Lemma c14_view_assign_ok : forall x y idx,
+  c14_view_offset (fst (c14_view_assign x y)) idx = c14_view_offset y idx /\
+  c14_view_offset (snd (c14_view_assign x y)) idx = c14_view_offset y idx /\
+  snd (fst (c14_view_assign x y)) = snd y.
+Proof. intros. repeat split. Qed.
+
+(* after swap each view is again inside its (new) storage range and addresses distinct elements *)
+Lemma c14_view_swap_in_range : forall x y idx, c14_wf (snd y) -> c14_valid idx (c14_ext (snd y)) ->
+  fst y <= c14_view_offset (fst (c14_view_swap x y)) idx < fst y + c14_required_span_size (snd y).
+Proof.
+  intros x y idx W V. pose proof (c14_in_range _ _ W V). unfold c14_view_offset, c14_mdspan_offset. simpl. lia.
+Qed.
+
+Lemma c14_array_swap_ok : forall (T : Type) (x y : c14_array T) idx,
+  c14_array_get (fst (c14_array_swap x y)) idx = c14_array_get y idx /\
+  c14_array_get (snd (c14_array_swap x y)) idx = c14_array_get x idx.
+Proof. intros. split; reflexivity. Qed.
+
+Lemma c14_array_assign_ok : forall (T : Type) (x y : c14_array T) idx,
+  c14_array_get (fst (c14_array_assign x y)) idx = c14_array_get y idx /\
+  c14_array_get (snd (c14_array_assign x y)) idx = c14_array_get y idx.
+Proof. intros. split; reflexivity. Qed.
+
 (* ------------------------------------------------------------------ non-vacuity witnesses *)
 Lemma c14_ex_extents : c14_spec_compatible [Some 2; None; Some 3] [2; 4; 3] /\
   c14_extents_list [Some 2; None; Some 3] (c14_extents_ctor [Some 2; None; Some 3] [4]) = [2; 4; 3].
